@@ -198,6 +198,7 @@ def judge(ctx, case):
 
 
 def canaries(ctx):
+    ctx.repo_tests_under_monitors(('C08',))       # second, independent workload for the same oracle
     cfg = msgwork.cfg_of('packaged')
     bm = bytes.fromhex('e0000000000000000000000000000000')
     neg = b'1144' + bm + b'-2' + b'3456'
